@@ -14,6 +14,7 @@
 package services
 
 import (
+	"io"
 	"bufio"
 	"bytes"
 	"context"
@@ -178,20 +179,24 @@ END\r\n
 				return fmt.Errorf("Byte count is not a number: %s", string(command))
 			}
 			count := v
+			if count < 0 {
+				return fmt.Errorf("Byte count is negative: %s", string(command))
+			}
 
-			buff := make([]byte, 80)
+			// record at most the first 80 bytes of the data block
+			n := count
+			if n > 80 {
+				n = 80
+			}
 
-			n, err := b.Read(buff)
-			if err != nil {
+			buff := make([]byte, n)
+
+			if _, err := io.ReadFull(b, buff); err != nil {
 				return err
 			}
 
-			buff = buff[:n]
-
-			// discard rest of payload
-			count -= n
-
-			b.Discard(count)
+			// discard rest of payload and the \r\n that ends the data block
+			b.Discard(count - n + 2)
 
 			s.ch.Send(event.New(
 				EventOptions,
